@@ -245,7 +245,19 @@ func interactiveCase(raw json.RawMessage, c *scase) {
 		typed = append(typed, s)
 	}
 	typed = append(typed, "top >probe")
-	r := session(typed)
+	// a session that never comes back holds the process-wide option store: nothing else can run in this process,
+	// so the violation is recorded and the harness ends with what it has
+	done := make(chan *vdrv.Result, 1)
+	go func() { done <- session(typed) }()
+	var r *vdrv.Result
+	select {
+	case r = <-done:
+	case <-time.After(60 * time.Second):
+		run.Violate("interactive", "hang:"+lastLine(c), fmt.Sprintf("the session did not come back within 60 s after %q", typed), raw, nil)
+		run.Note("a session hung; the remaining histories were not explored")
+		run.Finish("interactive histories of Session.tla up to the one that hung")
+		os.Exit(0)
+	}
 	kinds := ""
 	for _, l := range c.Lines {
 		kinds += l.Kind[:1]
